@@ -34,6 +34,7 @@ HasObj(t) == CASE t.k = "obj" -> TRUE
                [] t.k = "tuple" -> \E i \in DOMAIN t.es : HasObj(t.es[i])
                [] t.k = "map"   -> HasObj(t.vt)
                [] t.k = "union" -> \E i \in DOMAIN t.alts : HasObj(t.alts[i])
+               [] t.k = "dunion" -> TRUE
                [] OTHER -> FALSE
 OptsFor(t) == IF HasObj(t) THEN Opts ELSE {Opt(FALSE, FALSE, FALSE, "id")}
 
